@@ -572,12 +572,27 @@ async fn copy_to_qcow2<T: Qcow2IoOps>(
     off: u64,
     bytes: usize,
 ) -> Qcow2Result<usize> {
-    let mut buf = Qcow2IoBuf::<u8>::new(bytes);
+    // the image is zero padded to the cluster size, so the tail of a source
+    // whose size isn't a multiple of the block size is written as one
+    // zero padded block
+    let bs = 512;
+    let mut buf = Qcow2IoBuf::<u8>::new(std::cmp::max(bytes.div_ceil(bs) * bs, bs));
+    buf.zero_buf();
 
     src.seek(SeekFrom::Start(off))?;
-    let res = src.read(&mut buf)?;
+    // read() may return less than asked for
+    let mut res = 0;
+    while res < bytes {
+        let cnt = src.read(&mut buf[res..bytes])?;
+        if cnt == 0 {
+            break;
+        }
+        res += cnt;
+    }
 
-    dev.write_at(&buf[0..res], off).await?;
+    if res > 0 {
+        dev.write_at(&buf[0..res.div_ceil(bs) * bs], off).await?;
+    }
     Ok(res)
 }
 
